@@ -39,12 +39,17 @@ RULE = ('cases from one PRNG: (a) 50% select_edfa on a generated library of 1-12
         'ROADM booster/preamp lists, allowed_for_design, design band subsets, multiband entries); (c) 22% whole '
         'two-ROADM topologies designed by designed_network (auto-inserted and explicit amplifiers, ROADM and amplifier '
         'restrictions, fibre loss around the Raman limit, narrow SI bands); (d) 8% preselect_multiband_amps. '
-        'Non-trivial: (a) >= 2 permitted models, (b) library of >= 2, (c) at least one amplifier auto-selected, (d) '
-        'always; distinct = distinct canonical JSON')
+        'Non-trivial: (a) >= 2 permitted models, (b) library of >= 2, (c)/(d) at least one amplifier auto-selected, (e) '
+        'always; distinct = distinct canonical JSON. Generator restriction: two multiband entries never list the same '
+        'member set (such a library is ambiguous: find_type_variety cannot tell the twins apart and takes a '
+        'hash-order dependent one)')
 MODEL_SCOPE = ('modelled: select_edfa, filter_edfa_list_based_on_targets, edfa_nf (through the C04 NF model), '
                'get_node_restrictions (Edfa and Multiband_amplifier), the restriction filtering and raman_allowed of '
                'set_one_amplifier, preselect_multiband_amps + find_type_varieties. Taken from the implementation as '
-               'input: gain/power targets (compute_gain_power_and_tilt_target is C09), design bands (C07/C15)')
+               'input: gain/power targets (compute_gain_power_and_tilt_target is C09), design bands (C07/C15). Out of '
+               'scope: libraries in which two multiband entries list identical members (ambiguous, PYTHONHASHSEED '
+               'dependent outcome). Monitored but not modelled: per-band choice + find_type_variety inside a '
+               'Multiband_amplifier (open finding multiband-per-band-choices-form-unpermitted-type)')
 
 
 # ---------------------------------------------------------------------------------------------------------------------
@@ -113,16 +118,15 @@ def gen_sel_lib(rng, n=None, bands=False, multiband=False, all_allowed=False):
             e['allowed_for_design'] = rng.random() < 0.5
             ls.append(e)
         entries += cs + ls
-        seen = []
-        dup_ok = rng.random() < 0.12     # identical groupings under two names: a separate (rare) input class
+        seen = []   # two multiband entries never list the same member set (ambiguous library, out of scope)
         for j in range(rng.choice([1, 2, 3, 4])):
-            for _ in range(6):
+            for _ in range(8):
                 grp = [rng.choice(cs)['type_variety'], rng.choice(ls)['type_variety']]
-                if dup_ok or grp not in seen:
+                if sorted(grp) not in seen:
                     break
-            if grp in seen and not dup_ok:
+            if sorted(grp) in seen:
                 continue
-            seen.append(grp)
+            seen.append(sorted(grp))
             entries.append({'type_variety': f'm{j}', 'type_def': 'multi_band', 'amplifiers': grp,
                             'allowed_for_design': rng.random() < 0.6})
     return entries
@@ -693,6 +697,7 @@ def run_mtopo(case, drv):
     from gnpy.tools.json_io import network_from_json
     from gnpy.tools.worker_utils import designed_network
     res = Result()
+    errmsg = ''
     eq = load_entries(case['edfa'], span={'target_extended_gain': case['ext']})
     try:
         net = network_from_json(mtopo_json(case), eq)
@@ -750,6 +755,7 @@ def run_mtopo(case, drv):
         designed_network(eq, net, source='trx A', destination='trx B')
     except (ConfigurationError, NetworkTopologyError) as e:
         err = err_kind(e)
+        errmsg = str(e)
     finally:
         gnet.get_node_restrictions, gnet.preselect_multiband_amps, gnet.select_edfa = o_restr, o_pre, o_sel
         gnet.compute_gain_power_and_tilt_target = o_cmp
@@ -800,32 +806,22 @@ def run_mtopo(case, drv):
         elif s_['out'] is not None:
             monitor_choice(res, eq, set(s_['names']), s_['raman_allowed'], s_['gain'], s_['power'], s_['ext'],
                            s_['out'][0], s_['out'][1], where=f'{s_["uid"]}: ')
-    def same_grouping(t1, t2):
-        return (t1 in eq['Edfa'] and t2 in eq['Edfa'] and eq['Edfa'][t1].type_def == 'multi_band'
-                and eq['Edfa'][t2].type_def == 'multi_band'
-                and sorted(eq['Edfa'][t1].multi_band) == sorted(eq['Edfa'][t2].multi_band))
-    DUP = 'multiband-duplicate-grouping-arbitrary-type'
+    MIX = 'multiband-per-band-choices-form-unpermitted-type'
     if err is None:
         for uid, it in specs.items():
             node = by[uid]
             tv = node.params.type_variety
             if it['type_variety']:
                 if tv != it['type_variety']:
-                    res.fail(f'permitted set: {uid}: user type_variety {it["type_variety"]} replaced by {tv}',
-                             cls=DUP if same_grouping(tv, it['type_variety']) else 'unlisted')
+                    res.fail(f'permitted set: {uid}: user type_variety {it["type_variety"]} replaced by {tv}')
                 continue
             auto += 1
             pm = permitted_multi(uid, node)
             if tv not in pm:
                 picks = [a.params.type_variety for a in node.amplifiers.values()]
                 members = {t for m_ in pm for t in eq['Edfa'][m_].multi_band}
-                if any(same_grouping(tv, m_) for m_ in pm):
-                    cls = DUP
-                elif set(picks) <= members:
-                    # every per-band model is a member of a permitted entry, but of different ones
-                    cls = 'multiband-per-band-choices-form-unpermitted-type'
-                else:
-                    cls = 'unlisted'
+                # known open finding: every per-band model is a member of a permitted entry, but of different ones
+                cls = MIX if set(picks) <= members else 'unlisted'
                 res.fail(f'permitted set: {uid} received multiband type {tv} (per-band models {picks}), permitted are '
                          f'{sorted(pm)}', cls=cls)
                 continue
@@ -837,6 +833,16 @@ def run_mtopo(case, drv):
                 b = a.params.bands[0]
                 if not any(b['f_min'] <= db[0] and b['f_max'] >= db[1] for db in dbands):
                     res.fail(f'band cover: {uid}: model {a.params.type_variety} covers none of the design bands {dbands}')
+    if err == 'ConfigurationError' and 'do not belong to the same amp type' in errmsg and sel_calls:
+        # the same open finding, other outcome: the independent per-band picks are grouped by no entry at all
+        uid = sel_calls[-1]['uid']
+        node = by.get(uid)
+        if node is not None and uid in specs and not specs[uid]['type_variety']:
+            pm = permitted_multi(uid, node)
+            members = {t for m_ in pm for t in eq['Edfa'][m_].multi_band}
+            picks = [x['out'][0] for x in sel_calls if x['uid'] == uid and x['out']]
+            res.fail(f'permitted set: {uid}: design aborted, the per-band models {picks} chosen independently are grouped '
+                     f'by no multiband entry (permitted {sorted(pm)})', cls=MIX if set(picks) <= members else 'unlisted')
     res.nontrivial = auto > 0 or bool(pre_calls)
     res.stats.update({'mtopo_cases': 1, 'mtopo_auto_nodes': auto, f'mtopo_outcome_{err or "designed"}': 1,
                       'mtopo_preselect_calls': len(pre_calls), 'mtopo_select_calls': len(sel_calls)})
